@@ -57,12 +57,12 @@ var profiles = map[string]profile{
 		minOps: 10, maxOps: 40, forceKeys: 88, kv: true, collide: true, smallRoll: 85, rmIdx: 30, tools: 10},
 	"times": {name: "times", pub: 45, del: 22, delmulti: 5, trim: 3, gc: 3, clock: 3, reopen: 18,
 		minOps: 10, maxOps: 40, forceTimes: 88, forceMono: 100, smallRoll: 90, rmIdx: 35, tools: 15},
-	"deletes": {name: "deletes", pub: 35, del: 40, delmulti: 12, gc: 2, reopen: 10,
-		minOps: 10, maxOps: 35, smallRoll: 85, rmIdx: 10, tools: 5},
-	"trim": {name: "trim", pub: 40, del: 15, trim: 35, gc: 2, clock: 2, reopen: 6,
-		minOps: 10, maxOps: 35, smallRoll: 85, noIdxLoss: true},
-	"kv": {name: "kv", pub: 45, del: 8, cmp: 30, compact: 6, clock: 6, gc: 1, reopen: 4,
-		minOps: 10, maxOps: 40, kv: true, smallRoll: 85, noIdxLoss: true},
+	"deletes": {name: "deletes", pub: 35, del: 40, delmulti: 12, gc: 2, reopen: 15,
+		minOps: 10, maxOps: 35, smallRoll: 85, rmIdx: 35, tools: 5},
+	"trim": {name: "trim", pub: 40, del: 15, trim: 35, gc: 2, clock: 2, reopen: 9,
+		minOps: 10, maxOps: 35, smallRoll: 85, rmIdx: 30},
+	"kv": {name: "kv", pub: 45, del: 8, cmp: 30, compact: 6, clock: 6, gc: 1, reopen: 7,
+		minOps: 10, maxOps: 40, kv: true, smallRoll: 85, rmIdx: 30},
 	"versions": {name: "versions", pub: 40, del: 22, delmulti: 4, gc: 2, reopen: 30,
 		minOps: 10, maxOps: 40, smallRoll: 85, rmIdx: 15, tools: 45},
 	"index": {name: "index", pub: 42, del: 18, delmulti: 4, trim: 3, gc: 3, clock: 2, reopen: 26,
